@@ -112,7 +112,7 @@ def run(ctx):
     return ctx.finish(
         level="proof",
         rule="every maximal interleaving (at schedule-point granularity, enumerated by stateless depth-first search on the "
-             "real threads) of every case: all pairs of single operations from a 23-operation alphabet over two shared "
+             "real threads) of every case: all pairs of single operations from a 25-operation alphabet over two shared "
              "lists, then random cases (2 threads x <= 2 ops, every 16th 3 threads x 1 op, quick; 2-3 threads x <= 3 ops and every pair of the 90 programs of <= 2 ops over a 9-operation alphabet, thorough); evaluations = "
              "executed schedules; a class is distinct by (operation kinds per thread, how the schedule ended, whether a "
              "reallocation happened, whether some thread was blocked)",
